@@ -2,4 +2,6 @@ SPECIFICATION GenSpec
 CONSTANTS
   MaxSteps = 6
   MaxCuts = 1
+  Ext = FALSE
+  AIOs = {FALSE}
 INVARIANTS Emit
